@@ -329,6 +329,27 @@ def _memoised(ctx):
                 "as one key, so the value returned depends on which argument the process saw first",
                 line=d.lineno,
             )
+            # the cached object itself is handed to every later caller: a caller that edits it in place
+            # (`r = f(x); r["k"] = ...; r["doc"] += ...`) changes what the next call with equal arguments returns
+            for g in index.nontest_funcs():
+                for a in iter_own(g.node):
+                    if not (isinstance(a, (ast.Assign, ast.AnnAssign)) and isinstance(a.value, ast.Call)):
+                        continue
+                    if index.callee(g.mod, a.value, g) != f.qual:
+                        continue
+                    for t in a.targets if isinstance(a, ast.Assign) else [a.target]:
+                        if isinstance(t, ast.Name):
+                            muts = _mut_depths(g, t.id)
+                            if muts:
+                                ctx.ob(
+                                    "C10.modstate",
+                                    g,
+                                    a,
+                                    False,
+                                    "`{}` is the object cached by the memoised {}() and is edited in place ({}): every later call "
+                                    "with equal arguments — same document or a later one in the process — gets the edited "
+                                    "object back".format(t.id, f.node.name, short(muts[0][1], 60)),
+                                )
     ctx.count("memoising_decorators", n)
     return 0
 
